@@ -25,15 +25,15 @@ build() {
     # types (Path::exists and friends then ask the real tree), then without S7, then without both.
     cp "$GENSIM/build.log" "$GENSIM/build.first.log"
     built=""
-    for feats in "likelysubtags" "path_shadow" "" "likelysubtags nogens" "nogens"; do
+    # default features: path_shadow (Path/PathBuf wrappers), likelysubtags (S7: the library under the
+    # thread engine), libgen (a library that itself does I/O is compiled behind the generators' seams)
+    for feats in "likelysubtags libgen" "path_shadow likelysubtags" "likelysubtags" "path_shadow libgen" "path_shadow" "" "likelysubtags nogens" "nogens"; do
       if (cd "$GENSIM" && cargo build --release --offline --quiet --no-default-features --features "$feats" 2>"$GENSIM/build.log"); then
         built="yes"
-        case "$feats" in
-          likelysubtags) echo "note: the generators do not compile against the simulator's Path/PathBuf wrappers; built with the real path types (see $GENSIM/build.first.log)" >&2 ;;
-          path_shadow) echo "note: the library does not compile inside the simulator; built without the concurrent-callers batch S7 (see $GENSIM/build.first.log)" >&2 ;;
-          *nogens*) echo "note: the generator programs do not compile behind the simulator's seams; built WITHOUT them: no simulation batches, the real binaries are judged instead (see $GENSIM/build.first.log)" >&2 ;;
-          *) echo "note: built with the real path types and without the concurrent-callers batch S7 (see $GENSIM/build.first.log)" >&2 ;;
-        esac
+        case " $feats " in *" path_shadow "*) ;; *) echo "note: built with the real path types: the generators (or the library they call) do not compile against the simulator's Path/PathBuf wrappers (see $GENSIM/build.first.log)" >&2 ;; esac
+        case " $feats " in *" likelysubtags "*) ;; *) echo "note: built without the concurrent-callers batch S7: the library does not compile inside the simulator (see $GENSIM/build.first.log)" >&2 ;; esac
+        case " $feats " in *" libgen "*|*" nogens "*) ;; *) echo "note: built without the library copy behind the generators' seams: I/O, hash containers or threads inside the LIBRARY on behalf of a generator are not simulated (see $GENSIM/build.first.log)" >&2 ;; esac
+        case " $feats " in *" nogens "*) echo "note: the generator programs do not compile behind the simulator's seams; built WITHOUT them: no simulation batches, the real binaries are judged instead (see $GENSIM/build.first.log)" >&2 ;; esac
         break
       fi
     done
@@ -82,7 +82,18 @@ case "${1:-}" in
     case "${1:-quick}" in
       --replay)
         [ -n "${2:-}" ] || { echo "usage: ./run.sh C18 --replay <file>" >&2; exit 2; }
-        exec "$BIN" replay "$2"
+        "$BIN" replay "$2"; rc=$?
+        case $rc in
+          0|1|2) exit $rc ;;
+        esac
+        # as for a check: the replayed run took the simulator process down -> in a forked child
+        echo "NOTE: the simulator process died (exit status $rc); replaying in a forked child process" >&2
+        GENSIM_ISOLATE=1 "$BIN" replay "$2"; rc=$?
+        case $rc in
+          0|1|2) exit $rc ;;
+        esac
+        echo "HARNESS-ERROR: the simulator process died again (exit status $rc)" >&2
+        exit 2
         ;;
       quick|thorough)
         # replay files of earlier checks describe earlier trees
